@@ -575,7 +575,11 @@ def correspond(ctx):
         if k['kind'] == 'alias':
             c.count('alias-probe')
             c.evaluations_extra = getattr(c, 'evaluations_extra', 0) + 1
-            if r['clean'] != r['mutated'] or not r['proto_unchanged']:
+            if r.get('input_changed'):
+                c.failures.append(Failure(
+                    'correspondence', 'a stream writes into the dict passed to next(): %s' % r['input_changed'], found_input=True,
+                    theorem='streams share no state with their inputs', replay={'case': k, 'observed': r['input_changed']}))
+            elif r['clean'] != r['mutated'] or not r['proto_unchanged']:
                 d = next((i for i, (a, b) in enumerate(zip(r['clean'], r['mutated'])) if a != b), None)
                 c.failures.append(Failure(
                     'correspondence', 'mutating an event a stream has yielded (or the dict passed to it) changes what the stream '
@@ -705,10 +709,17 @@ def oracle_keys(case, res):
     if 'delta' not in keys: chk('delta', delta)
     if 'sustain' not in keys: chk('sustain', sustain)
     if 'amp' not in keys and 'db' not in keys and 'velocity' in keys: chk('amp', Fraction(keys['velocity'][1]) / 127)
+    if 'amp' not in keys and 'db' in keys and keys['db'][0] in ('I', 'F', 'B'):
+        a = Fraction(keys['db'][1])
+        y = tabs.get('dbamp', {}).get('%d/%d' % (a.numerator, a.denominator))
+        if y is not None:
+            chk('amp', Fraction(y))
     return bad
 
 
 def oracle_pat(case, res):
+    if case.get('ctl') or case.get('raises') or case.get('twice') is not None:
+        return []      # the reference knows neither controllers nor failing events
     txt = json.dumps(case['pat'])
     if '"par"' in txt and '"mono"' in txt:
         return []      # the reference does not place the release of a Pmono inside a Ppar
@@ -765,7 +776,8 @@ def search(ctx, failures):
     bat = battery()
     cases = [c for _, c in bat]
     extra = [f.replay['case'] for f in failures if f.replay.get('case')]
-    pool = list(getattr(ctx, 'c14', ([], []))[0])[:ctx.n(600, 3000)]
+    allgen = [k for k in getattr(ctx, 'c14', ([], []))[0] if k['kind'] in ('keys', 'pat')]
+    pool = allgen[::max(1, len(allgen) // ctx.n(500, 3000))]
     allc = cases + extra + pool
     res = run_impl(ctx, allc)
     seen_sig = set()
